@@ -244,6 +244,28 @@ func (f *Frame) callByContract(v ssa.Value, in ssa.Instruction, sig *types.Signa
 					f.frameCheckAll(st, in, what)
 					st.heap = u.newHeap(&Link{kind: "havoc", parent: st.heap, keep: append([]string{}, f.localRefs...)})
 					u.bumpHV(st.heap, false)
+				case strings.HasPrefix(item, `\elems(`):
+					// the callee may overwrite the elements of a slice argument
+					env.heap = pre
+					av, err := env.eval(strings.TrimSuffix(strings.TrimPrefix(item, `\elems(`), ")"))
+					if err != nil {
+						u.W.fail("%s:%d: assigns of %s: %v", cl.File, cl.Line, c.Key, err)
+						continue
+					}
+					sl, ok := av.Typ.Underlying().(*types.Slice)
+					if !ok {
+						u.W.fail("%s:%d: \\elems of non-slice", cl.File, cl.Line)
+						continue
+					}
+					earr, _ := u.elemArr(sl.Elem())
+					base := "(sl.base " + av.T + ")"
+					f.frameCheckRef(st, in, earr, base, "callee "+what+" overwrites the elements of its argument")
+					ea := u.hget(st.heap, earr)
+					nd := u.fresh("elems", "(Array Int "+u.D.SortOf(sl.Elem())+")")
+					// only the slice's own window changes
+					u.emit(fmt.Sprintf("(assert (forall ((i Int)) (! (=> (or (< i (sl.off %s)) (>= i (+ (sl.off %s) (sl.len %s)))) (= (select %s i) (select (select %s %s) i))) :pattern ((select %s i)))))", av.T, av.T, av.T, nd, ea, base, nd))
+					u.hset(st.heap, earr, sto(ea, base, nd))
+					u.bumpHV(st.heap, false)
 				case strings.HasPrefix(item, `\after(`):
 					env.heap = pre
 					av, err := env.eval(strings.TrimSuffix(strings.TrimPrefix(item, `\after(`), ")"))
@@ -515,18 +537,31 @@ func (f *Frame) appendOp(v ssa.Value, c *ssa.CallCommon, st *state) {
 		addLen = "(gs.len " + y.T + ")"
 		addAt = func(j string) string { return app("gs.at", y.T, j) }
 	}
-	na := u.fresh("app.data", "(Array Int "+es+")")
+	// append either fits into the spare capacity (same backing array, written beyond the
+	// old length) or reallocates; which one happens is not known statically
+	fits := u.fresh("app.fits", "Bool")
 	oldLen := "(sl.len " + s.T + ")"
-	// contents: old prefix then new elements (append always modelled as reallocating)
-	u.emit(fmt.Sprintf("(assert (forall ((j Int)) (! (=> (and (<= 0 j) (< j %s)) (= (select %s j) (select (select %s (sl.base %s)) (sl.at %s j)))) :pattern ((select %s j)))))", oldLen, na, a, s.T, s.T, na))
-	u.emit(fmt.Sprintf("(assert (forall ((j Int)) (! (=> (and (<= 0 j) (< j %s)) (= (select %s (+ %s j)) %s)) :pattern ((select %s (+ %s j))))))", addLen, na, oldLen, addAt("j"), na, oldLen))
+	oldBase := "(sl.base " + s.T + ")"
+	oldOff := "(sl.off " + s.T + ")"
+	u.emit(fmt.Sprintf("(assert (=> %s (and (not (= %s 0)) (<= (+ %s %s) %s))))", fits, oldBase, oldLen, addLen, u.sliceCap(s.T)))
+	u.emit(fmt.Sprintf("(assert (=> (> (+ %s %s) %s) (not %s)))", oldLen, addLen, u.sliceCap(s.T), fits))
+	res := u.fresh("app."+v.Name(), "Slice")
+	u.emit(fmt.Sprintf("(assert (= %s (mk-slice (ite %s %s %s) (ite %s %s 0) (+ %s %s))))", res, fits, oldBase, r, fits, oldOff, oldLen, addLen))
+	na := u.fresh("app.data", "(Array Int "+es+")")
+	// contents of the result's backing array: old prefix, then the new elements
+	u.emit(fmt.Sprintf("(assert (forall ((j Int)) (! (=> (and (<= 0 j) (< j %s)) (= (select %s (sl.at %s j)) (select (select %s %s) (sl.at %s j)))) :pattern ((select %s (sl.at %s j))) :pattern ((sl.at %s j)))))", oldLen, na, res, a, oldBase, s.T, na, res, s.T))
+	u.emit(fmt.Sprintf("(assert (forall ((j Int)) (! (=> (and (<= 0 j) (< j %s)) (= (select %s (sl.at %s (+ %s j))) %s)) :pattern ((select %s (sl.at %s (+ %s j)))))))", addLen, na, res, oldLen, addAt("j"), na, res, oldLen))
+	// in place: everything outside the written range keeps its value
+	u.emit(fmt.Sprintf("(assert (=> %s (forall ((i Int)) (! (=> (or (< i (+ %s %s)) (>= i (+ %s %s %s))) (= (select %s i) (select (select %s %s) i))) :pattern ((select %s i))))))", fits, oldOff, oldLen, oldOff, oldLen, addLen, na, a, oldBase, na))
 	// common special case: a single appended element
 	if n, ok := f.singleVariadic(c.Args[1]); ok {
-		u.emit(fmt.Sprintf("(assert (= (select %s %s) %s))", na, oldLen, n))
+		u.emit(fmt.Sprintf("(assert (= (select %s (sl.at %s %s)) %s))", na, res, oldLen, n))
 	}
-	u.hset(st.heap, arr, sto(a, r, na))
-	f.setDef(v, fmt.Sprintf("(mk-slice %s 0 (+ %s %s))", r, oldLen, addLen))
-	u.note("append modelled as always allocating a new backing array")
+	u.hset(st.heap, arr, sto(a, "(sl.base "+res+")", na))
+	f.vals[v] = Val{T: res, Typ: v.Type()}
+	nc := u.sliceCap(res)
+	u.emit(fmt.Sprintf("(assert (>= %s (sl.len %s)))", nc, res))
+	u.note("append: in-place vs reallocation left open (capacity is uninterpreted); writes into spare capacity are not subject to frame obligations (assumption: no other live slice covers the spare capacity)")
 }
 
 // singleVariadic recognises the SSA pattern for append(s, x): a 1-element array slice.
@@ -727,6 +762,16 @@ func (f *Frame) loopModSet(ls *loopState) map[string]bool {
 				f.callModSet(&x.Call, mod)
 			case *ssa.Defer, *ssa.Go:
 				mod["*"] = true
+			case *ssa.Next:
+				if r, ok := x.Iter.(*ssa.Range); ok {
+					if _, isMap := r.X.Type().Underlying().(*types.Map); isMap {
+						mod[f.visitedName(r)] = true
+					}
+				}
+			case *ssa.Range:
+				if _, isMap := x.X.Type().Underlying().(*types.Map); isMap {
+					mod[f.visitedName(x)] = true
+				}
 			}
 		}
 	}
@@ -813,7 +858,7 @@ func (f *Frame) callModSet(c *ssa.CallCommon, mod map[string]bool) {
 			case `\all`:
 				mod["*"] = true
 			default:
-				if strings.HasPrefix(item, `\after(`) {
+				if strings.HasPrefix(item, `\after(`) || strings.HasPrefix(item, `\elems(`) {
 					mod["*"] = true
 					continue
 				}
@@ -1019,7 +1064,16 @@ func (f *Frame) checkPost(ret *ssa.Return, st *state, vs []Val) {
 			u.W.fail("%s:%d: ensures: %v", cl.File, cl.Line, err)
 			continue
 		}
-		u.oblige("post", f.fname, st.cur, t, cl.File+":"+fmt.Sprint(cl.Line), cl.Text)
+		// big finite conjunctions (forLits) are decided conjunct by conjunct: small queries
+		if parts := topConjuncts(t); len(parts) > 8 {
+			for _, p := range parts {
+				u.oblige("post", f.fname, st.cur, p, cl.File+":"+fmt.Sprint(cl.Line), cl.Text)
+			}
+		} else {
+			u.oblige("post", f.fname, st.cur, t, cl.File+":"+fmt.Sprint(cl.Line), cl.Text)
+		}
+		// later clauses may rely on earlier ones (assert A; assert B)
+		u.assume(st.cur, t)
 	}
 }
 
@@ -1171,4 +1225,41 @@ func (f *Frame) assignsArray(contract *Contract, callee *ssa.Function, c *ssa.Ca
 		return ""
 	}
 	return l.Arr
+}
+
+
+// topConjuncts splits "(and a b c)" into its arguments.
+func topConjuncts(t string) []string {
+	if !strings.HasPrefix(t, "(and ") {
+		return nil
+	}
+	body := t[5 : len(t)-1]
+	var out []string
+	d, start, inq := 0, 0, false
+	for i := 0; i < len(body); i++ {
+		c := body[i]
+		if c == '|' {
+			inq = !inq
+		}
+		if inq {
+			continue
+		}
+		switch c {
+		case '(':
+			d++
+		case ')':
+			d--
+		case ' ':
+			if d == 0 {
+				if i > start {
+					out = append(out, body[start:i])
+				}
+				start = i + 1
+			}
+		}
+	}
+	if start < len(body) {
+		out = append(out, body[start:])
+	}
+	return out
 }
